@@ -43,7 +43,7 @@ pub fn run<T: W>(r1: usize, c1: usize, shapes_b: &[(usize, usize)], seed: u64, w
     let da: DenseMatrix<T> = build(&a);
     // right-hand operand: second code (+ / checkerboard), the same code as A, or the very same
     // stored values as A under a different shape
-    let (b, db): (M, DenseMatrix<T>) = match fb {
+    let (b, db_owned): (M, DenseMatrix<T>) = match fb {
         0 | 1 => {
             let b = coded2(r2, c2, fb, seed).round::<T>();
             let db = build(&b);
@@ -60,8 +60,15 @@ pub fn run<T: W>(r1: usize, c1: usize, shapes_b: &[(usize, usize)], seed: u64, w
             (view(&db), db)
         }
     };
+    // aliasing: when B has the same code and shape as A, also pass the very same object as both
+    // operands (`a.op(&a)`) — a fast path keyed on operand identity must not change the result
+    let aliased = fb == 2 && (r1, c1) == (r2, c2) && mc::choose(2) == 1;
+    if aliased {
+        mc::count("binary_aliased_operands");
+    }
+    let db: &DenseMatrix<T> = if aliased { &da } else { &db_owned };
     let op = OPS[mc::choose(OPS.len())];
-    let bname = ["second code/all-positive", "second code/checkerboard", "same code as A", "same stored values as A"][fb];
+    let bname = if aliased { "the same object as A" } else { ["second code/all-positive", "second code/checkerboard", "same code as A", "same stored values as A"][fb] };
     let what = || format!("[{} A={} ({}) B={} ({})]", T::NAME, a.show(), SIGN_NAMES[fa], b.show(), bname);
     let pair = format!("{}/{}", shape_class(r1, c1), shape_class(r2, c2));
     let same_shape = (r1, c1) == (r2, c2);
@@ -81,20 +88,20 @@ pub fn run<T: W>(r1: usize, c1: usize, shapes_b: &[(usize, usize)], seed: u64, w
                 });
                 let cls = shape_class(r1, c1);
                 match op {
-                    "add" => both(&oc, &om, cls, &what, &a, &da, &want, None, |m| m.add(&db), |m| {
-                        m.add_mut(&db);
+                    "add" => both(&oc, &om, cls, &what, &a, &da, &want, None, |m| m.add(db), |m| {
+                        m.add_mut(db);
                     }),
-                    "sub" => both(&oc, &om, cls, &what, &a, &da, &want, None, |m| m.sub(&db), |m| {
-                        m.sub_mut(&db);
+                    "sub" => both(&oc, &om, cls, &what, &a, &da, &want, None, |m| m.sub(db), |m| {
+                        m.sub_mut(db);
                     }),
-                    "mul" => both(&oc, &om, cls, &what, &a, &da, &want, None, |m| m.mul(&db), |m| {
-                        m.mul_mut(&db);
+                    "mul" => both(&oc, &om, cls, &what, &a, &da, &want, None, |m| m.mul(db), |m| {
+                        m.mul_mut(db);
                     }),
-                    _ => both(&oc, &om, cls, &what, &a, &da, &want, None, |m| m.div(&db), |m| {
-                        m.div_mut(&db);
+                    _ => both(&oc, &om, cls, &what, &a, &da, &want, None, |m| m.div(db), |m| {
+                        m.div_mut(db);
                     }),
                 }
-                if mc::guard(|| view(&db)).ok().as_ref() != Some(&b) {
+                if mc::guard(|| view(db)).ok().as_ref() != Some(&b) {
                     Cx { op: &om, class: cls, what: &what }.fail(":operand-modified", "the right-hand operand was changed".into());
                 }
                 mc::count("binary_compatible");
@@ -103,19 +110,19 @@ pub fn run<T: W>(r1: usize, c1: usize, shapes_b: &[(usize, usize)], seed: u64, w
                 }
             } else {
                 let g = mc::guard(|| match op {
-                    "add" => da.add(&db),
-                    "sub" => da.sub(&db),
-                    "mul" => da.mul(&db),
-                    _ => da.div(&db),
+                    "add" => da.add(db),
+                    "sub" => da.sub(db),
+                    "mul" => da.mul(db),
+                    _ => da.div(db),
                 });
                 expect_panic(&Cx { op: &oc, class: size_cls, what: &what }, g, show_m);
                 let mut m = da.clone();
                 let g = mc::guard(|| {
                     match op {
-                        "add" => m.add_mut(&db),
-                        "sub" => m.sub_mut(&db),
-                        "mul" => m.mul_mut(&db),
-                        _ => m.div_mut(&db),
+                        "add" => m.add_mut(db),
+                        "sub" => m.sub_mut(db),
+                        "mul" => m.mul_mut(db),
+                        _ => m.div_mut(db),
                     };
                 });
                 expect_panic(&Cx { op: &om, class: size_cls, what: &what }, g.map(|_| m), show_m);
@@ -130,7 +137,7 @@ pub fn run<T: W>(r1: usize, c1: usize, shapes_b: &[(usize, usize)], seed: u64, w
             };
             let (ea, eb) = (if ta { a.tr() } else { a.clone() }, if tb { b.tr() } else { b.clone() });
             let name = if op == "matmul" { "dense.matmul".to_string() } else { format!("highorder.ab({},{})", ta, tb) };
-            let got = mc::guard(|| if op == "matmul" { da.matmul(&db) } else { da.ab(ta, &db, tb) });
+            let got = mc::guard(|| if op == "matmul" { da.matmul(db) } else { da.ab(ta, db, tb) });
             if ea.c == eb.r {
                 let (want, tol) = product::<T>(&ea, &eb);
                 expect_m::<T>(&Cx { op: &name, class: &pair, what: &what }, got, &want, Some(&tol));
@@ -148,7 +155,7 @@ pub fn run<T: W>(r1: usize, c1: usize, shapes_b: &[(usize, usize)], seed: u64, w
             }
         }
         "dot" => {
-            let got = mc::guard(|| da.dot(&db));
+            let got = mc::guard(|| da.dot(db));
             if is_vec(&a) && is_vec(&b) && a.v.len() == b.v.len() {
                 let want: f64 = a.v.iter().zip(&b.v).map(|(x, y)| x * y).sum();
                 let sabs: f64 = a.v.iter().zip(&b.v).map(|(x, y)| (x * y).abs()).sum();
@@ -173,7 +180,7 @@ pub fn run<T: W>(r1: usize, c1: usize, shapes_b: &[(usize, usize)], seed: u64, w
             }
         }
         "h_stack" => {
-            let got = mc::guard(|| da.h_stack(&db));
+            let got = mc::guard(|| da.h_stack(db));
             if r1 == r2 {
                 let want = M::new(r1, c1 + c2, |i, j| if j < c1 { a.at(i, j) } else { b.at(i, j - c1) });
                 expect_m::<T>(&Cx { op: "dense.h_stack", class: &pair, what: &what }, got, &want, None);
@@ -186,7 +193,7 @@ pub fn run<T: W>(r1: usize, c1: usize, shapes_b: &[(usize, usize)], seed: u64, w
             }
         }
         "v_stack" => {
-            let got = mc::guard(|| da.v_stack(&db));
+            let got = mc::guard(|| da.v_stack(db));
             if c1 == c2 {
                 let want = M::new(r1 + r2, c1, |i, j| if i < r1 { a.at(i, j) } else { b.at(i - r1, j) });
                 expect_m::<T>(&Cx { op: "dense.v_stack", class: &pair, what: &what }, got, &want, None);
@@ -200,10 +207,10 @@ pub fn run<T: W>(r1: usize, c1: usize, shapes_b: &[(usize, usize)], seed: u64, w
         }
         "copy_from" => {
             let mut m = da.clone();
-            let g = mc::guard(|| m.copy_from(&db));
+            let g = mc::guard(|| m.copy_from(db));
             if same_shape {
                 expect_m::<T>(&Cx { op: "dense.copy_from", class: shape_class(r1, c1), what: &what }, g.map(|_| m), &b, None);
-                if mc::guard(|| view(&db)).ok().as_ref() != Some(&b) {
+                if mc::guard(|| view(db)).ok().as_ref() != Some(&b) {
                     Cx { op: "dense.copy_from", class: shape_class(r1, c1), what: &what }.fail(":operand-modified", "the source was changed".into());
                 }
             } else {
@@ -223,14 +230,14 @@ pub fn run<T: W>(r1: usize, c1: usize, shapes_b: &[(usize, usize)], seed: u64, w
             } else {
                 "different-shape"
             };
-            expect_eq(&Cx { op: "dense.eq", class: cls, what: &what }, mc::guard(|| da == db), equal);
-            expect_eq(&Cx { op: "dense.eq", class: cls, what: &what }, mc::guard(|| db == da), equal);
+            expect_eq(&Cx { op: "dense.eq", class: cls, what: &what }, mc::guard(|| da == *db), equal);
+            expect_eq(&Cx { op: "dense.eq", class: cls, what: &what }, mc::guard(|| *db == da), equal);
             for err in [0.5, 1e9] {
                 if same_shape && (maxd - err).abs() <= 1e-3 * err {
                     continue;
                 }
                 let w = || format!("{} error {:e}", what(), err);
-                expect_eq(&Cx { op: "dense.approximate_eq", class: cls, what: &w }, mc::guard(|| da.approximate_eq(&db, t(err))), same_shape && maxd <= err);
+                expect_eq(&Cx { op: "dense.approximate_eq", class: cls, what: &w }, mc::guard(|| da.approximate_eq(db, t(err))), same_shape && maxd <= err);
                 expect_eq(&Cx { op: "dense.approximate_eq", class: cls, what: &w }, mc::guard(|| db.approximate_eq(&da, t(err))), same_shape && maxd <= err);
             }
             if !same_shape {
@@ -240,7 +247,7 @@ pub fn run<T: W>(r1: usize, c1: usize, shapes_b: &[(usize, usize)], seed: u64, w
         "max_diff" => {
             if same_shape {
                 let want = a.v.iter().zip(&b.v).fold(0.0f64, |m, (x, y)| m.max(rt::<T>(x - y).abs()));
-                expect_s::<T>(&Cx { op: "dense.max_diff", class: shape_class(r1, c1), what: &what }, mc::guard(|| da.max_diff(&db)), want, 0.0);
+                expect_s::<T>(&Cx { op: "dense.max_diff", class: shape_class(r1, c1), what: &what }, mc::guard(|| da.max_diff(db)), want, 0.0);
             } else {
                 // the statement does not list max_diff among the operations that must reject
                 mc::count("max_diff_outside_statement");
